@@ -28,6 +28,8 @@ static void observe(qvector_t *v, const model_t *m, const char *after) {
     int n = m->n;
     errno = 0; if (v->addlast(v, NULL) || errno != EINVAL) vc_viol("array:einval", "addlast(NULL) not refused with EINVAL");
     errno = 0; if (v->addat(v, 0, NULL) || errno != EINVAL) vc_viol("array:einval", "addat(NULL) not refused with EINVAL");
+    { int opt = POLICY == 0 ? QVECTOR_RESIZE_EXACT : POLICY == 1 ? QVECTOR_RESIZE_LINEAR : QVECTOR_RESIZE_DOUBLE;   /* configuration chosen at construction: every later operation depends on it */
+      if (v->objsize != (size_t)OSZ || v->options != opt) vc_viol("array:configuration-changed", "after %s: element size %zu / options %#x, constructed with %d / %#x", after, v->objsize, v->options, OSZ, opt); }
     if ((int)v->size(v) != n) vc_viol("array:size", "after %s: size() = %zu, expected %d", after, v->size(v), n);
     { void *a = v->toarray(v, NULL); if ((a != NULL) != (n > 0)) vc_viol("array:toarray", "after %s: toarray without a size pointer disagrees with %d elements", after, n); free(a); }
     if (v->max < v->num) vc_viol("array:capacity", "after %s: capacity %zu below element count %zu", after, v->max, v->num);
